@@ -50,3 +50,8 @@ CASES += [
     {"name": "unknown keyword to liouville_pathways_3T (the repaired defect)", "kind": "mutant", "rule": "C12-A", "edits": [
         (ASP, "                                eUt=qr.qm.SOpUnity(dim=ham.dim), ham=ham,", "                                eUt2=qr.qm.SOpUnity(dim=ham.dim),", 1)]},
 ]
+
+CASES += [
+    {"name": "ground-to-one-exciton dephasing without the square", "kind": "mutant", "rule": "C12-F", "edits": [
+        ("quantarhei/builders/aggregate_base.py", "                return self.Dr[Nf, Nf]**2", "                return self.Dr[Nf, Nf]", 1)]},
+]
